@@ -23,9 +23,9 @@ Definition rok (cap : N) (x : mout) : Prop :=
 
 Definition pcok (cap : N) (p : pc) : Prop :=
   match p with
-  | K8 _ n len take i acc _ _ => len = N.min n cap /\ take <= len /\ i < take /\ N.of_nat (length acc) = i
-  | K9 _ n len acc _ _ => len = N.min n cap /\ N.of_nat (length acc) <= len
-  | K10 d _ _ => dok cap d
+  | K8 _ _ n len take i acc _ _ => len = N.min n cap /\ take <= len /\ i < take /\ N.of_nat (length acc) = i
+  | K9 _ _ n len acc _ _ => len = N.min n cap /\ N.of_nat (length acc) <= len
+  | K10 _ d _ _ => dok cap d
   | _ => True
   end.
 
